@@ -33,6 +33,7 @@ func init() {
 			ruleGlobals(c, "R10")
 			ruleIndexResetOnEveryPath(c, "R2c")
 			rulePatternsEnterThroughTheParser(c, "R11")
+			ruleOnlyTheWholePatternIsJudged(c, "R13")
 			ruleIndexedFieldsKeepValidatedText(c, "R12")
 		},
 	})
